@@ -404,3 +404,26 @@ Definition sentinel_involved (fs : fstate) : bool :=
      end.
 
 End Run.
+
+(* ---- count files whose collection time is unknown ----
+   A count file whose TimeBegin is missing or unparsable (lf_span = None for a
+   name ending in .v1.count) cannot be shown to hold only data from after the
+   opt-in date: the run must not fold it into an uploadable report.
+   Observable form: such a file (with a readable end instant e) was removed by
+   the run AND an uploadable report for the week of e was written or sent.
+   damaged: (name, end) of those files; removed: names gone from local/ after
+   the run; uploadable: the weeks (dates) for which <week>.json was created in
+   local/ or a request was made; asof: the date recorded in the mode file. *)
+Definition removed_names (e : list effect) : list bytes :=
+  flat_map (fun x => match x with ERemoveLocal n => [n] | _ => [] end) e.
+Definition uploadable_weeks (e : list effect) : list bytes :=
+  flat_map (fun x => match x with
+                     | EPost fd _ => [fd]
+                     | ECreateLocal n => if has_prefix n local_prefix then [] else [trim_suffix n json_suffix]
+                     | _ => []
+                     end) e.
+Definition spec_unknown_begin_ok (asof : option Z) (damaged : list (bytes * Z)) (removed uploadable : list bytes) : bool :=
+  match asof with
+  | None => true            (* no opt-in date recorded: nothing to be after *)
+  | Some _ => forallb (fun ne => negb (names_has removed (fst ne) && names_has uploadable (week_of (snd ne)))) damaged
+  end.
